@@ -8,7 +8,8 @@ an input of `LessThan` is taken to be checked by.  Statements are abstracted to 
   if it is an inline array `[v₀, v₁, …]`.
 
 Since the `fix:` ee9259e a component is looked up by `maybe_equal` (as in `SignalAssign.mayAlias`, but for accesses of equal
-length): every recorded instantiation that may be the component must agree, otherwise the component is not tracked.
+length), and since its review all instantiations are kept: the inputs are examined when *some* instantiation that may be the
+component is `LessThan`, and an input counts as range checked only when *every* one is the same `Num2Bits`.
 -/
 import Circomspect.Model.SignalAssign
 import Circomspect.Model.Curve
@@ -19,7 +20,7 @@ open Circomspect.SignalAssign (Acc accAlias)
 inductive Inst
   | lessThan
   | num2bits (size : Option Nat) (sizeText : String)   -- the value constant propagation knows for the size, and the size expression
-  | unknown                                            -- another template, or instantiated in more than one way
+  | unknown                                            -- another template
   deriving Repr, DecidableEq
 
 structure Key where
@@ -34,46 +35,50 @@ inductive Stmt
   | other
   deriving Repr, DecidableEq
 
-/-- `Component::same_as`: `Unknown` is not the same as anything -/
-def sameAs : Inst → Inst → Bool
-  | .lessThan, .lessThan => true
+/-- two instantiations are the same `Num2Bits` (the size expressions are compared) -/
+def sameSize : Inst → Inst → Bool
   | .num2bits _ a, .num2bits _ b => a == b
   | _, _ => false
 
-/-- `add_component` -/
-def addComponent (cs : List (Key × Inst)) (k : Key) (t : Inst) : List (Key × Inst) :=
-  match cs.find? (fun e => e.1.id == k.id) with
-  | none => cs ++ [(k, t)]
-  | some e => if sameAs e.2 t then cs else cs.map (fun x => if x.1.id == k.id then (x.1, Inst.unknown) else x)
-
+/-- `add_component` (since the `fix:` after the review of ee9259e every instantiation is kept) -/
 def components (ss : List Stmt) : List (Key × Inst) :=
-  ss.foldl (fun cs s => match s with | .inst k t => addComponent cs k t | _ => cs) []
+  ss.filterMap (fun s => match s with | .inst k t => some (k, t) | _ => none)
 
 /-- `VariableAccess::maybe_equal` -/
 def maybeEqual (a b : Key) : Bool :=
   a.name == b.name && a.acc.length == b.acc.length && (a.acc.zip b.acc).all (fun p => accAlias p.1 p.2)
 
-/-- `get_component`: the instantiation all candidates agree on -/
-def getComponent (cs : List (Key × Inst)) (k : Key) : Option Inst :=
-  match cs.filter (fun e => maybeEqual e.1 k) with
+/-- `get_components`: the instantiations of the components the access may refer to -/
+def candidates (cs : List (Key × Inst)) (k : Key) : List Inst :=
+  (cs.filter (fun e => maybeEqual e.1 k)).map (·.2)
+
+/-- `may_be_less_than`: the inputs are examined as soon as some instantiation is `LessThan` -/
+def mayBeLessThan (is : List Inst) : Bool := is.any (fun t => t == .lessThan)
+
+/-- `get_bit_size`: the component counts as `Num2Bits` of a size only if every instantiation is that `Num2Bits` -/
+def bitSize : List Inst → Option (Option Nat)
   | [] => none
-  | e :: rest => if rest.all (fun x => sameAs e.2 x.2) then some e.2 else some .unknown
+  | .num2bits s t :: rest => if rest.all (fun x => sameSize (.num2bits s t) x) then some s else none
+  | _ :: _ => none
 
 inductive Input
   | lessThan (value : String)
   | num2bits (value : String) (size : Option Nat)
   deriving Repr, DecidableEq
 
-/-- `update_inputs` on one statement -/
+/-- `update_inputs` on one statement: the `Num2Bits` reading and the `LessThan` readings are independent of each other -/
 def inputsOf (cs : List (Key × Inst)) : Stmt → List Input
   | .input k port indexed whole elems =>
     if port != "in" then []
-    else match getComponent cs k with
-      | some (.num2bits size _) => if indexed then [] else [.num2bits whole size]
-      | some .lessThan =>
-        if indexed then [.lessThan whole]
-        else (match elems with | some vs => vs.map .lessThan | none => [])
-      | _ => []
+    else
+      let is := candidates cs k
+      (match bitSize is with
+       | some size => if indexed then [] else [.num2bits whole size]
+       | none => []) ++
+      (if mayBeLessThan is then
+         (if indexed then [.lessThan whole]
+          else match elems with | some vs => vs.map .lessThan | none => [.lessThan whole])
+       else [])
   | _ => []
 
 def inputs (ss : List Stmt) : List Input := ss.flatMap (inputsOf (components ss))
